@@ -304,6 +304,20 @@ def run_shard(spec):
         alg = rng.choice(["ico", "cube3D", "randomS"])
         N = rng.randint(4, 60)
         text, T = radial_text(rng)
+        if it % 6 == 3:
+            # many shells on a small angular grid: a shell index computed from a cell index by float arithmetic ((k/n_t)*n_t, k/n_o) is
+            # wrong only for particular shell counts (22, 23, 26, 39, 43-47, 49-52 ... for one such slip): the count sweeps 7..70, also
+            # through the default length of the two-argument linspace (50)
+            T = rng.randint(7, 70)
+            N = rng.choice([4, 5, 7])
+            if rng.random() < 0.5:
+                r = [rng.randint(5, 40) / 100]
+                for _ in range(T - 1):
+                    r.append(round(r[-1] + rng.choice([0.02, 0.05, 0.1, 0.3]), 4))
+                text = "[" + ", ".join(str(x) for x in r) + "]"
+            else:
+                text = f"linspace(0.2, {round(0.2 + 0.05 * T, 3)}, {T})" if rng.random() < 0.7 else "linspace(0.2, 1.5)"
+            REC.classes["many shells (7..70)"] += 1
         drive(PositionGrid, alg, N, text, order_seed=rng.randrange(10 ** 6))
 
 
